@@ -55,6 +55,9 @@ void hk_crumb(const char * what);
 
 /* busy work of roughly n "units" (not optimised away) */
 void hk_work(unsigned n);
+/* no-progress watch (plain OS thread): reports key when hk_progress() was not called for secs seconds */
+void hk_watch_start(const char * key, int secs);
+void hk_progress(void);
 
 #define HK_FAIL(key, ...) myth_verif_violation((key), __VA_ARGS__)
 #define HK_CHECK(cond, key, ...) do { if (!(cond)) myth_verif_violation((key), __VA_ARGS__); } while (0)
